@@ -1,0 +1,129 @@
+// Verification seam (cargo feature `verif_hooks`): read-only access to crate-private protocol
+// types, the authentication state machines, the session election and the frame reader, for the
+// external model-checking harness. Nothing here is compiled unless the feature is on.
+
+//! Verification seam for the external model-checking harness
+#![allow(missing_docs, missing_debug_implementations, unreachable_pub)]
+
+pub use crate::net::VerifFrameReader;
+
+/// The generated protobuf types
+pub mod proto {
+    pub use crate::protocol::meta::NetworkMessage;
+    pub mod auth {
+        pub use crate::protocol::auth::*;
+    }
+    pub mod control {
+        pub use crate::protocol::control::*;
+    }
+    pub mod node {
+        pub use crate::protocol::node::*;
+    }
+    pub mod meta {
+        pub use crate::protocol::meta::*;
+    }
+}
+
+/// `hash::challenge_digest`
+pub fn challenge_digest(cookie: &str, challenge: u32) -> Vec<u8> {
+    crate::hash::challenge_digest(cookie, challenge).to_vec()
+}
+
+/// The accepting side's authentication state machine
+pub struct ServerFsm(crate::node::auth::ServerAuthenticationProcess);
+
+impl ServerFsm {
+    pub fn init() -> Self {
+        Self(crate::node::auth::ServerAuthenticationProcess::init())
+    }
+    /// the state a session is put in after answering `Alive`
+    pub fn waiting_on_client_status() -> Self {
+        Self(crate::node::auth::ServerAuthenticationProcess::WaitingOnClientStatus)
+    }
+    pub fn next(&self, msg: proto::auth::AuthenticationMessage, cookie: &str) -> Self {
+        Self(self.0.next(msg, cookie))
+    }
+    pub fn start_challenge(&self, cookie: &str) -> Self {
+        Self(self.0.start_challenge(cookie))
+    }
+    pub fn is_ok(&self) -> bool {
+        matches!(self.0, crate::node::auth::ServerAuthenticationProcess::Ok(_))
+    }
+    pub fn is_close(&self) -> bool {
+        matches!(self.0, crate::node::auth::ServerAuthenticationProcess::Close)
+    }
+    /// (challenge, expected digest) while waiting for the client's reply
+    pub fn challenge(&self) -> Option<(u32, Vec<u8>)> {
+        match &self.0 {
+            crate::node::auth::ServerAuthenticationProcess::WaitingOnClientChallengeReply(
+                c,
+                d,
+            ) => Some((*c, d.to_vec())),
+            _ => None,
+        }
+    }
+    /// the digest acknowledged to the client once authenticated
+    pub fn ok_digest(&self) -> Option<Vec<u8>> {
+        match &self.0 {
+            crate::node::auth::ServerAuthenticationProcess::Ok(d) => Some(d.to_vec()),
+            _ => None,
+        }
+    }
+    /// name of the state (no payload)
+    pub fn state_name(&self) -> &'static str {
+        use crate::node::auth::ServerAuthenticationProcess as S;
+        match &self.0 {
+            S::WaitingOnPeerName => "WaitingOnPeerName",
+            S::HavePeerName(_) => "HavePeerName",
+            S::WaitingOnClientStatus => "WaitingOnClientStatus",
+            S::WaitingOnClientChallengeReply(..) => "WaitingOnClientChallengeReply",
+            S::Ok(_) => "Ok",
+            S::Close => "Close",
+        }
+    }
+}
+
+/// The dialling side's authentication state machine
+pub struct ClientFsm(crate::node::auth::ClientAuthenticationProcess);
+
+impl ClientFsm {
+    pub fn init() -> Self {
+        Self(crate::node::auth::ClientAuthenticationProcess::init())
+    }
+    pub fn next(&self, msg: proto::auth::AuthenticationMessage, cookie: &str) -> Self {
+        Self(self.0.next(msg, cookie))
+    }
+    pub fn is_ok(&self) -> bool {
+        matches!(self.0, crate::node::auth::ClientAuthenticationProcess::Ok)
+    }
+    pub fn is_close(&self) -> bool {
+        matches!(self.0, crate::node::auth::ClientAuthenticationProcess::Close)
+    }
+    /// (digest to send to the server, our challenge, digest we expect back)
+    pub fn challenge(&self) -> Option<(Vec<u8>, u32, Vec<u8>)> {
+        match &self.0 {
+            crate::node::auth::ClientAuthenticationProcess::WaitingForServerChallengeAck(
+                _,
+                reply,
+                ours,
+                expected,
+            ) => Some((reply.to_vec(), *ours, expected.to_vec())),
+            _ => None,
+        }
+    }
+    pub fn state_name(&self) -> &'static str {
+        use crate::node::auth::ClientAuthenticationProcess as C;
+        match &self.0 {
+            C::WaitingForServerStatus => "WaitingForServerStatus",
+            C::WaitingForServerChallenge(_) => "WaitingForServerChallenge",
+            C::WaitingForServerChallengeAck(..) => "WaitingForServerChallengeAck",
+            C::Ok => "Ok",
+            C::Close => "Close",
+        }
+    }
+}
+
+/// `node::elect_sessions` over plain data: candidates are (local actor pid, is_server, nonce)
+pub fn elect_sessions(this_node: &str, peer: &str, candidates: &[(u64, bool, u64)]) -> Vec<u64> {
+    crate::node::verif_elect_sessions(this_node, peer, candidates)
+}
